@@ -585,6 +585,31 @@ def run(index, rep, tier):
                       "PhylogeneticDistanceMatrix.%s never stores the distance of a taxon to itself: a matrix read with from_csv (which hands over the upper triangle only) answers distance(a, a) but raises KeyError in write_csv / as_data_table, which read dmatrix[t][t] - a matrix read back from CSV cannot be written again" % name)
         rep.floor("R14.15", "compile routes", 2, n15)
 
+    # ---- R14.16 pairs of distinct items
+    with rep.section("R14.16"):
+        rep.rule("R14.16", "pairs are pairs of DISTINCT items: where the distance code enumerates unordered pairs with `for i, a in enumerate(xs): for b in xs[i+1:]`, the inner slice starts one past the outer index - starting AT it pairs every item with itself, which adds n-1 zero entries to a list of pairwise distances (its length, mean and variance are then those of a different sample)")
+        n16 = 0
+        for mod in PROP_MODULES["C14"][:2]:
+            for f in index.functions_in_module(mod):
+                for outer in [l for l in ast.walk(f.node) if isinstance(l, ast.For)]:
+                    if not (isinstance(outer.iter, ast.Call) and call_name(outer.iter) == "enumerate" and outer.iter.args and isinstance(outer.target, ast.Tuple) and len(outer.target.elts) == 2 and isinstance(outer.target.elts[0], ast.Name)):
+                        continue
+                    sq_ = outer.iter.args[0]
+                    if isinstance(sq_, ast.Subscript) and isinstance(sq_.slice, ast.Slice):
+                        sq_ = sq_.value         # `enumerate(xs[:-1])` walks xs
+                    seq, iv = norm(sq_), outer.target.elts[0].id
+                    for inner in [l for st in outer.body for l in ast.walk(st) if isinstance(l, ast.For)]:
+                        sl = [x for x in ast.walk(inner.iter) if isinstance(x, ast.Subscript) and norm(x.value) == seq and isinstance(x.slice, ast.Slice) and x.slice.lower is not None and x.slice.upper is None]
+                        if not sl:
+                            continue
+                        n16 += 1
+                        lo = sl[0].slice.lower
+                        plus1 = isinstance(lo, ast.BinOp) and isinstance(lo.op, ast.Add) and {norm(lo.left), norm(lo.right)} == {iv, "1"}
+                        guarded = any(isinstance(t, ast.If) and any(isinstance(c, ast.Compare) and isinstance(c.ops[0], (ast.Is, ast.IsNot, ast.Eq, ast.NotEq)) for c in ast.walk(t.test)) and any(isinstance(y, ast.Continue) for y in ast.walk(t)) for t in inner.body)
+                        rep.check(plus1 or guarded, "R14.16", f.qualname, "pair loop includes an item with itself", fn_where(f, inner), "%s: inner loop over `%s` skips the outer item" % (f.name, norm(sl[0])[:40]),
+                                  "%s pairs the items of `%s` with `%s`: the slice starts at the outer item itself, so every item is also paired with itself - NodeDistanceMatrix.distances() returns n-1 extra zero entries (20 entries for 6 nodes instead of 15; mean 4.75 instead of 6.33)" % (f.qualname, seq, norm(sl[0])[:40]))
+        rep.floor("R14.16", "nested pair loops over a slice of the outer sequence", 1, n16)
+
 
 def option_default_rule(index, rep, rid, cq, options):
     ci = index.klass(cq)
